@@ -3,7 +3,7 @@
 # property it breaks, undoes it, and prints one line per change.  /repo must be clean; it is clean again afterwards.
 cd /verif
 [ -n "$(git -C /repo status --short)" ] && { echo "/repo is not clean"; exit 2; }
-ids=${@:-$(ls seeded)}
+ids=${@:-$(ls -d seeded/*/ | xargs -n1 basename)}
 for id in $ids; do
   d=seeded/$id; pid=$(python3 -c "import json;print(json.load(open('$d/meta.json'))['breaks'])")
   git -C /repo apply /verif/$d/patch.diff || { echo "$id APPLY-FAILED"; continue; }
